@@ -378,7 +378,7 @@ pub const SCALE_NAMES: [&str; 5] = ["1", "1e-6", "1e6", "2^-40", "2^40"];
 pub const RENAMINGS: [(&str, [i64; 8]); 4] = [
     ("identity", [0, 1, 2, 3, 4, 5, 6, 7]),
     ("ugly", [7, -3, 10, 0, -1000000, 5, 1 << 40, -8]),
-    ("negated", [0, -1, -2, -3, -4, -5, -6, -7]),
+    ("signed-pairs", [-1, 1, -2, 2, -3, 3, -4, 4]),
     ("shifted-1e9", [1_000_000_007, 1_000_000_003, 1_000_000_005, 1_000_000_001, 1_000_000_000, 1_000_000_006, 1_000_000_002, 1_000_000_004]),
 ];
 
